@@ -448,10 +448,10 @@ def native_replay(ctx, h, case, root, tape, tag):
         f.write(tape)
     env_cmd = ["env", "ASAN_OPTIONS=detect_leaks=%d:abort_on_error=0" % (1 if h.get("leak_check") else 0),
                "UBSAN_OPTIONS=print_stacktrace=1", exe, tp]
-    rc, o, e, dt = run(env_cmd, timeout=120)
+    rc, o, e, dt = run(env_cmd, timeout=int(h.get("native_timeout_s", 120)))
     labels = re.findall(r"VF_ASSERT_FAILED (\S+)", o)
     san = bool(re.search(r"ERROR: AddressSanitizer|runtime error:|ERROR: LeakSanitizer", e))
-    return {"built": True, "rc": rc, "labels": labels, "sanitizer": san,
+    return {"built": True, "rc": rc, "labels": labels, "sanitizer": san, "timeout": rc == -999,
             "assume_failed": "VF_ASSUME_FAILED" in o, "stdout": o[-1500:], "stderr": e[-2500:]}
 
 
@@ -573,6 +573,13 @@ def main():
                     n_ok += 1
                     continue
                 if p["kind"] == "unwind":
+                    # loops whose bound is *derived from the code* as the
+                    # termination argument (spec: termination_loops): a run
+                    # that exceeds it is a candidate hang, confirmed natively
+                    if any(re.search(rx, p["property"]) for rx in h.get("termination_loops", [])) and p.get("tape") is not None:
+                        p["term"] = True
+                        case_fail.append(p)
+                        continue
                     machinery.append("%s: unwinding bound too small: %s %s" % (cname, p["property"], p.get("where", "")))
                     continue
                 case_fail.append(p)
@@ -588,6 +595,8 @@ def main():
             seen_labels = set()
             for p in case_fail:
                 label = p["description"][3:] if p["kind"] == "assert" else p["property"]
+                if p.get("term"):
+                    label = "termination." + re.sub(r"\.unwind\.\d+$", "", p["property"])
                 key = (label if p["kind"] == "assert" else re.sub(r"\.\d+$", "", label))
                 tape = p.get("tape", b"")
                 tag = re.sub(r"[^A-Za-z0-9_.-]", "_", label)[:60]
@@ -596,7 +605,10 @@ def main():
                 if rp.get("built"):
                     # a sanitizer report on the replay tape is a real fault
                     # of the code under test even when it pre-empts the label
-                    if p["kind"] == "assert":
+                    if p.get("term"):
+                        # the native run on the same input does not return
+                        confirmed = bool(rp.get("timeout"))
+                    elif p["kind"] == "assert":
                         confirmed = (label in rp["labels"]) or rp["sanitizer"]
                     else:
                         confirmed = rp["sanitizer"]
